@@ -214,11 +214,11 @@ fn big_counters(rep: &mut Report, thorough: bool) {
     let data = vcommon::stream_b(15, n);
     let small_sub = 4096;
     let small = 16 * small_sub + 2000;
-    if spec_root_parallel(&sm, &data[..small], small_sub).root_bytes(0, 64) != b3spec::node(&sm, &data[..small], 0).root_bytes(0, 64) {
+    if b3spec::node_parallel16(&sm, &data[..small], small_sub).root_bytes(0, 64) != b3spec::node(&sm, &data[..small], 0).root_bytes(0, 64) {
         eprintln!("ORACLE-ANCHOR-FAILED: parallel composition of the spec differs from the recursive definition");
         std::process::exit(2);
     }
-    let exp = spec_root_parallel(&sm, &data, sub).root_bytes(0, 131);
+    let exp = b3spec::node_parallel16(&sm, &data, sub).root_bytes(0, 131);
     rep.inc("evaluations");
     rep.inc("distinct_nontrivial");
     rep.inc("spec_comparisons");
@@ -238,21 +238,6 @@ fn big_counters(rep: &mut Report, thorough: bool) {
     }
     rep.add("max_block_counter_reached", (out_len / 64) as u64);
     rep.add("max_chunk_counter_reached", (n / 1024) as u64);
-}
-
-/// Spec node of `data` = 16 aligned subtrees of `sub` bytes followed by a shorter tail, the sixteen
-/// subtree chaining values computed on threads by the recursive definition.
-fn spec_root_parallel(mode: &b3spec::Mode, data: &[u8], sub: usize) -> b3spec::Node {
-    assert!(sub.is_power_of_two() && sub >= 1024 && data.len() > 16 * sub && data.len() - 16 * sub <= sub);
-    let mut cvs: Vec<[u8; 32]> = std::thread::scope(|s| {
-        let hs: Vec<_> = (0..16).map(|i| s.spawn(move || b3spec::node(mode, &data[i * sub..(i + 1) * sub], (i * sub / 1024) as u64).chaining_value())).collect();
-        hs.into_iter().map(|h| h.join().expect("spec thread")).collect()
-    });
-    while cvs.len() > 1 {
-        cvs = cvs.chunks(2).map(|p| b3spec::parent_node(mode, &p[0], &p[1]).chaining_value()).collect();
-    }
-    let right = b3spec::node(mode, &data[16 * sub..], (16 * sub / 1024) as u64).chaining_value();
-    b3spec::parent_node(mode, &cvs[0], &right)
 }
 
 /// Every field of the live /repo/test_vectors/test_vectors.json.
